@@ -3,6 +3,7 @@ CONSTANTS
   MaxRedir = 2
   Follow = TRUE
   KeepPrevious = FALSE
+  DialAgainAfterRefusal = FALSE
   MaxTls = 2
 INVARIANTS InsideContract AtMostOneOpen NothingOpenAtTheEnd DialsBounded
 PROPERTY Terminates
